@@ -4,6 +4,7 @@
 //	F <name> extern=<0/1> generic=<0/1> ret=<spec> <pname>:<spec>:<isref 0/1> ...
 //
 // spec: Z K B W C T V | N (nichts) | L(<spec>) | S:<Kombination> | D:<typedef>(<spec>) | A:<alias>(<spec>) | G (type parameter)
+// one line "S <Kombination> <field>:<spec> ..." per Kombination reachable from a signature,
 // and one line "E <n>" with the number of diagnostics delivered.
 package main
 
@@ -56,6 +57,32 @@ func show(t ddptypes.Type) string {
 	return "?" + t.String()
 }
 
+var seenStructs = map[*ddptypes.StructType]bool{}
+var structLines []string
+
+// records the field table of every Kombination reachable from a signature:  S <name> <field>:<spec> ...
+func noteStructs(t ddptypes.Type) {
+	switch v := t.(type) {
+	case ddptypes.ListType:
+		noteStructs(v.ElementType)
+	case *ddptypes.TypeDef:
+		noteStructs(v.Underlying)
+	case *ddptypes.TypeAlias:
+		noteStructs(v.Underlying)
+	case *ddptypes.StructType:
+		if seenStructs[v] {
+			return
+		}
+		seenStructs[v] = true
+		line := "S " + v.Name
+		for _, f := range v.Fields {
+			noteStructs(f.Type)
+			line += " " + f.Name + ":" + show(f.Type)
+		}
+		structLines = append(structLines, line)
+	}
+}
+
 func main() {
 	src, err := os.ReadFile(os.Args[1])
 	if err != nil {
@@ -92,7 +119,9 @@ func main() {
 			ge = 1
 		}
 		fmt.Fprintf(&b, "F %s extern=%d generic=%d ret=%s", fd.Name(), ex, ge, show(fd.ReturnType))
+		noteStructs(fd.ReturnType)
 		for _, p := range fd.Parameters {
+			noteStructs(p.Type.Type)
 			r := 0
 			if p.Type.IsReference {
 				r = 1
@@ -100,6 +129,9 @@ func main() {
 			fmt.Fprintf(&b, " %s:%s:%d", p.Name.Literal, show(p.Type.Type), r)
 		}
 		fmt.Println(b.String())
+	}
+	for _, l := range structLines {
+		fmt.Println(l)
 	}
 	fmt.Println("E", nerr)
 }
